@@ -372,12 +372,12 @@ fn any_wf_daytime() -> PosixDayTime {
     PosixDayTime { date: any_wf_day(), time: PosixTime { second: t } }
 }
 /// contract of c17_posix_abbreviation / c17_posix_abbreviation_anywhere
-fn stub_abbreviation<'s>(p: &Parser<'s>) -> Result<Abbreviation, Error> {
+fn stub_abbreviation<'s>(p: &Parser<'s>) -> Result<Abbreviation, Error> where 's: 's {
     assert!(p.pos() < p.tz.len(), "parse_abbreviation called at the end of the input");
     if kani::any() { adv(p, 3); Ok(Abbreviation::new("AAA").unwrap()) } else { adv(p, 0); Err(err!("stub")) }
 }
 /// contract of c17_posix_offset (no precondition: the real function copes with the end of the input)
-fn stub_offset<'s>(p: &Parser<'s>) -> Result<PosixOffset, Error> {
+fn stub_offset<'s>(p: &Parser<'s>) -> Result<PosixOffset, Error> where 's: 's {
     if kani::any() {
         adv(p, 1);
         let s: i32 = kani::any(); kani::assume(-89999 <= s && s <= 89999);
@@ -385,17 +385,17 @@ fn stub_offset<'s>(p: &Parser<'s>) -> Result<PosixOffset, Error> {
     } else { adv(p, 0); Err(err!("stub")) }
 }
 /// contract of c17_posix_datetime
-fn stub_datetime<'s>(p: &Parser<'s>) -> Result<PosixDayTime, Error> {
+fn stub_datetime<'s>(p: &Parser<'s>) -> Result<PosixDayTime, Error> where 's: 's {
     assert!(p.pos() < p.tz.len(), "parse_posix_datetime called at the end of the input");
     if kani::any() { adv(p, 1); Ok(any_wf_daytime()) } else { adv(p, 0); Err(err!("stub")) }
 }
 /// contract of c17_posix_rule
-fn stub_rule<'s>(p: &Parser<'s>) -> Result<PosixRule, Error> {
+fn stub_rule<'s>(p: &Parser<'s>) -> Result<PosixRule, Error> where 's: 's {
     assert!(p.pos() < p.tz.len(), "parse_rule called at the end of the input");
     if kani::any() { adv(p, 3); Ok(PosixRule { start: any_wf_daytime(), end: any_wf_daytime() }) } else { adv(p, 0); Err(err!("stub")) }
 }
 /// contract of c17_posix_dst
-fn stub_dst<'s>(p: &Parser<'s>, std_offset: &PosixOffset) -> Result<PosixDst<Abbreviation>, Error> {
+fn stub_dst<'s>(p: &Parser<'s>, std_offset: &PosixOffset) -> Result<PosixDst<Abbreviation>, Error> where 's: 's {
     assert!(p.pos() < p.tz.len(), "parse_posix_dst called at the end of the input");
     assert!(-89999 <= std_offset.second && std_offset.second <= 89999, "parse_posix_dst called with a standard offset outside what parse_posix_offset returns");
     if kani::any() {
@@ -454,14 +454,14 @@ fn c17_posix_dst() {
 //@prop C17
 //@tier quick
 //@timeout 600
-//@doc glue, callees parse_abbreviation / parse_posix_offset / parse_posix_dst replaced by their contract stubs.  Precondition: NON-EMPTY input (the empty input is c17_posix_parse_empty).  Every buffer of 1..=8 bytes, both entry points (parse, parse_prefix): no callee is called at the end of the input or with a standard offset outside -89999..=89999; Ok(tz) => PosixTimeZone::wf (the precondition of every lookup in the Verus unit posix); parse_prefix returns exactly the unread rest; parse accepts only when nothing is left; no panic
+//@doc glue, callees parse_abbreviation / parse_posix_offset / parse_posix_dst replaced by their contract stubs.  Precondition: NON-EMPTY input (the empty input is c17_posix_parse_empty).  Every buffer of 1..=12 bytes, both entry points (parse, parse_prefix): no callee is called at the end of the input or with a standard offset outside -89999..=89999; Ok(tz) => PosixTimeZone::wf (the precondition of every lookup in the Verus unit posix); parse_prefix returns exactly the unread rest; parse accepts only when nothing is left; no panic
 #[kani::proof]
 #[kani::stub(crate::shared::posix::Parser::parse_abbreviation, stub_abbreviation)]
 #[kani::stub(crate::shared::posix::Parser::parse_posix_offset, stub_offset)]
 #[kani::stub(crate::shared::posix::Parser::parse_posix_dst, stub_dst)]
 fn c17_posix_time_zone() {
-    let bytes: [u8; 8] = kani::any();
-    let len: usize = kani::any(); kani::assume(1 <= len && len <= 8);
+    let bytes: [u8; 12] = kani::any();
+    let len: usize = kani::any(); kani::assume(1 <= len && len <= 12);
     let p = mk(&bytes[..len], 0, kani::any());
     if kani::any() {
         let r = p.parse();
@@ -487,4 +487,86 @@ fn c17_posix_parse_empty() {
     let empty: [u8; 0] = [];
     let p = Parser { ianav3plus: true, ..Parser::new(&empty[..]) };
     assert!(p.parse().is_err());
+}
+
+// ------------------------------------------------------------------------------------------------ (3) whole parser, bounded
+
+fn whole(tz: &[u8]) {
+    let len = tz.len();
+    let p = Parser { ianav3plus: true, ..Parser::new(tz) };   // = PosixTimeZone::parse
+    match p.parse() {
+        Err(_) => {}
+        Ok(z) => {
+            assert!(wf_tz(&z) && wf_abbrev(&z.std_abbrev));
+            assert!(-89999 <= z.std_offset.second && z.std_offset.second <= 89999);
+            if let Some(ref d) = z.dst { assert!(wf_abbrev(&d.abbrev)); }
+            assert!(len >= 4);
+            kani::cover!(z.dst.is_none());
+            kani::cover!(z.dst.is_some());
+        }
+    }
+}
+
+//@harness c17_posix_parse_upto_12
+//@target shared::posix::Parser::parse with ianav3plus (= PosixTimeZone::parse, TimeZone::posix, the TZif footer) (src/shared/posix.rs)
+//@prop C17
+//@tier quick
+//@timeout 1500
+//@bounded every byte string of 1..=12 bytes (the empty string is c17_posix_parse_empty); only `core::str::from_utf8` is replaced (by a version that asserts the bytes are ASCII)
+//@doc no stubs for parser code: the whole POSIX TZ parser returns Ok or Err without panicking; Ok(tz) => PosixTimeZone::wf (standard offset inside -89999..=89999, DST offset inside -93599..=93599, rule day specs and times in range), both abbreviations have 3..=30 bytes.  Ok is reachable inside the bound both without DST ("AAA0", 4 bytes) and with a DST rule ("AAA0BBB,0,0", 11 bytes)
+#[kani::proof]
+#[kani::stub(core::str::from_utf8, stub_from_utf8)]
+#[kani::unwind(14)]
+fn c17_posix_parse_upto_12() {
+    let bytes: [u8; 12] = kani::any();
+    let len: usize = kani::any(); kani::assume(1 <= len && len <= 12);
+    whole(&bytes[..len]);
+}
+
+//@harness c17_posix_parse_upto_16
+//@target x
+//@prop C17
+//@tier thorough
+//@timeout 1500
+//@bounded 16
+//@doc experiment
+#[kani::proof]
+#[kani::stub(core::str::from_utf8, stub_from_utf8)]
+#[kani::unwind(18)]
+fn c17_posix_parse_upto_16() {
+    let bytes: [u8; 16] = kani::any();
+    let len: usize = kani::any(); kani::assume(1 <= len && len <= 16);
+    whole(&bytes[..len]);
+}
+
+//@harness c17_posix_parse_upto_20
+//@target x
+//@prop C17
+//@tier thorough
+//@timeout 1500
+//@bounded 20
+//@doc experiment
+#[kani::proof]
+#[kani::stub(core::str::from_utf8, stub_from_utf8)]
+#[kani::unwind(22)]
+fn c17_posix_parse_upto_20() {
+    let bytes: [u8; 20] = kani::any();
+    let len: usize = kani::any(); kani::assume(1 <= len && len <= 20);
+    whole(&bytes[..len]);
+}
+
+//@harness c17_posix_parse_upto_24
+//@target x
+//@prop C17
+//@tier thorough
+//@timeout 1500
+//@bounded 24
+//@doc experiment
+#[kani::proof]
+#[kani::stub(core::str::from_utf8, stub_from_utf8)]
+#[kani::unwind(26)]
+fn c17_posix_parse_upto_24() {
+    let bytes: [u8; 24] = kani::any();
+    let len: usize = kani::any(); kani::assume(1 <= len && len <= 24);
+    whole(&bytes[..len]);
 }
